@@ -766,6 +766,26 @@ func (e *Exec) sliceOp(st *State, fr *Frame, x *ssa.Slice, site string) []*State
 
 func (e *Exec) typeAssert(st *State, fr *Frame, x *ssa.TypeAssert, site string) []*State {
 	v := e.eval(st, fr, x.X).(Iface)
+	if v.NilIf != nil && !v.NilIf.IsFalse() && v.T != nil {
+		// possibly-nil interface: split into the nil and the non-nil case
+		var outs []*State
+		nilF, nonF := e.feasible(st, v.NilIf), e.feasible(st, Not(v.NilIf))
+		if nilF {
+			s := st
+			if nonF {
+				s = st.Clone()
+			}
+			s.Assume(v.NilIf)
+			s.Top().Env[x.X] = Iface{}
+			outs = append(outs, e.typeAssert(s, s.Top(), x, site)...)
+		}
+		if nonF {
+			st.Assume(Not(v.NilIf))
+			st.Top().Env[x.X] = Iface{T: v.T, V: v.V}
+			outs = append(outs, e.typeAssert(st, st.Top(), x, site)...)
+		}
+		return outs
+	}
 	ok := false
 	var res Value
 	if v.T != nil {
@@ -904,6 +924,19 @@ func (e *Exec) callInstr(st *State, fr *Frame, x *ssa.Call, site string) []*Stat
 	if ct.nilp {
 		return []*State{e.rtPanic(st, "invalid memory address or nil pointer dereference", site)}
 	}
+	var nilPanic []*State
+	if ct.nilCond != nil {
+		nf, of := e.feasible(st, ct.nilCond), e.feasible(st, Not(ct.nilCond))
+		if nf && !of {
+			return []*State{e.rtPanic(st, "invalid memory address or nil pointer dereference", site)}
+		}
+		if nf {
+			p := st.Clone()
+			p.Assume(ct.nilCond)
+			nilPanic = append(nilPanic, e.rtPanic(p, "invalid memory address or nil pointer dereference", site))
+		}
+		st.Assume(Not(ct.nilCond))
+	}
 	depth := len(st.Frames)
 	var outs []Outcome
 	if e.lenient {
@@ -931,7 +964,7 @@ func (e *Exec) callInstr(st *State, fr *Frame, x *ssa.Call, site string) []*Stat
 	} else {
 		outs = e.callValue(st, ct.fn, ct.args, false, site)
 	}
-	var res []*State
+	res := nilPanic
 	for _, o := range outs {
 		if len(o.st.Frames) != depth {
 			fail("frame depth mismatch after call at %s: %d vs %d", site, len(o.st.Frames), depth)
